@@ -149,7 +149,7 @@ def setup(ctx):
     from smartquery import functions
     ctx.P = SqParser()
     ctx.W = W = Watch(ctx)
-    M1 = monitors.NodeMonitor()
+    ctx.M1 = M1 = monitors.NodeMonitor()
     M1.on_enter, M1.on_exit, M1.on_raise = W.enter, W.exit, W.raised
     F = functions.FUNCTIONS
     for n in ADDERS:
@@ -235,6 +235,7 @@ def cases(ctx):
 
 def run_case(case, ctx):
     _, src, size, intkeys = case
+    ctx.M1.lambdas.clear()         # the registry keeps every lambda (and through it the names of its evaluation) alive
     W = ctx.W
     W.case, W.src, W.stack, W.first, W.big_seen = case, src, [], None, False
     names = names_for(src, size, intkeys)
